@@ -111,7 +111,7 @@ theorem C19_list_run (D : Desc) (s : St) (hi : s.index < D.commandsNum) (ht : s.
     let c := D.cmdD (some s.index)
     (c.hasRun = false → (printCmdList D s).cmdType = .read ∧ (printCmdList D s).buf = s.buf ∧ (printCmdList D s).state = s.state) ∧
     (c.hasRun = true → (printCmdList D s).state = .flushWait) := by
-  simp [printCmdList, ht, St.chkUb, hi]
+  simp [printCmdList, printCmdForm, ht, St.chkUb, hi]
   constructor
   · intro h; simp [h]
   · intro h; simp [h]; split <;> simp
@@ -120,7 +120,7 @@ theorem C19_list_write (D : Desc) (s : St) (hi : s.index < D.commandsNum) (ht : 
     let c := D.cmdD (some s.index)
     ((c.hasWrite || varsAccessible c .wo) = false → (printCmdList D s).cmdType = .test ∧ (printCmdList D s).buf = s.buf) ∧
     ((c.hasWrite || varsAccessible c .wo) = true → (printCmdList D s).state = .flushWait) := by
-  simp only [printCmdList, ht, St.chkUb, hi, decide_true, if_true]
+  simp only [printCmdList, printCmdForm, ht, St.chkUb, hi, decide_true, if_true]
   constructor
   · intro h; simp [h]
   · intro h; simp [h]; split <;> simp
@@ -129,7 +129,7 @@ theorem C19_list_test (D : Desc) (s : St) (hi : s.index < D.commandsNum) (ht : s
     let c := D.cmdD (some s.index)
     ((c.hasTest || (c.vars.isSome && decide (c.varNum > 0))) = false → (printCmdList D s).cmdType = .total ∧ (printCmdList D s).buf = s.buf) ∧
     ((c.hasTest || (c.vars.isSome && decide (c.varNum > 0))) = true → (printCmdList D s).state = .flushWait) := by
-  simp only [printCmdList, ht, St.chkUb, hi, decide_true, if_true]
+  simp only [printCmdList, printCmdForm, ht, St.chkUb, hi, decide_true, if_true]
   constructor
   · intro h; simp [h]
   · intro h; simp [h]; split <;> simp
@@ -170,7 +170,7 @@ theorem C19_list_skips_disabled (D : Desc) (s : St) (hi : s.index < D.commandsNu
     (hd : disabledByIndex D.groups s.index = true) :
     ((printCmdList D s).index = s.index + 1 ∨ (printCmdList D s).state = .flushWait) ∧
     tr .wrC (printCmdList D s).log = tr .wrC s.log ∧ (printCmdList D s).buf = s.buf ∨ (printCmdList D s).state = .flushWait := by
-  simp [printCmdList, ht, hd, cmdListNextCmd, St.chkUb, hi]
+  simp [printCmdList, printCmdForm, ht, hd, cmdListNextCmd, St.chkUb, hi]
   (repeat' split) <;> simp
 
 /-- the list advances through the table in registration order: `index` only ever grows by one -/
